@@ -201,8 +201,24 @@ def RunCases(prop, cases, tag=None, max_samples=4, metamorphic=False):
       if (line['id'], o['p']) not in verdicts and not errors:
         errors.append(('missing verdict', line['id'], o['p']))
   differ = [k for k, (kind, _) in D.items() if kind == 'rows_differ']
+  if metamorphic:
+    # only the one-sided disagreements need an explanation (a deviation of
+    # the engine that shows under one spelling / plan / order and not the
+    # other); shared ones are inherited from the base
+    one_sided = set()
+    for case in cases:
+      if case.get('base') is None:
+        continue
+      for b, v, _ in case['qmap']:
+        dv = D.get((case['id'], v))
+        db = D.get((case.get('base_id'), b))
+        if dv and not db and dv[0] == 'rows_differ':
+          one_sided.add((case['id'], v))
+        if db and not dv and db[0] == 'rows_differ':
+          one_sided.add((case['base_id'], b))
+    differ = [k for k in differ if k in one_sided]
   explained = _Explain(differ, lines, tag, errors) if (
-      differ and not errors and not metamorphic) else {}
+      differ and not errors) else {}
   out.tlc_errors = errors
   out.disagreements = [(by_id[cid][0], p, kind, detail)
                        for (cid, p), (kind, detail) in D.items()]
@@ -259,6 +275,14 @@ def RunCases(prop, cases, tag=None, max_samples=4, metamorphic=False):
             continue
           kind, detail = 'variant_diagnostic_differs', dv[1]
         sig = Signature(case, v, kind, detail)
+        devs = (explained.get((cid, v)) if dv and not db else
+                explained.get((bid, b)) if db and not dv else None)
+        if devs:
+          # the difference between the two sides is exactly a listed engine
+          # deviation that one of the two SQL shapes triggers
+          sig['explained_by'] = devs
+          sig['dev_only'] = all(
+              cls.Match({'dev': d, 'kind': 'rows_differ'}) for d in devs)
         f = cls.Match(sig)
         if f:
           out.known[f['id']] += 1
